@@ -259,7 +259,7 @@ func TestVerifC04(t *testing.T) {
 					case e.Kind == "cancel" && e.If == name:
 						cancelSeen = true
 					case e.Kind == "log":
-						if strings.HasPrefix(e.Msg, name+": ") && strings.Contains(e.Msg, "refusing to advertise a default route") {
+						if strings.HasPrefix(e.Msg, name+": ") && strings.Contains(strings.ToLower(e.Msg), "forwarding") {
 							logs++
 						}
 					case e.Kind == "hook_inconsistent" && e.If == name:
